@@ -124,18 +124,28 @@ class Model:
         return self.ask_many([dict(op=op, **kw)])[0]
 
     def ask_many(self, reqs):
-        """pipelined: writes all requests, then reads all answers (chunked to avoid pipe deadlock)"""
+        """pipelined: a writer thread feeds the requests while this thread reads the answers, so neither side can
+        block on a full pipe whatever the size of requests and answers"""
+        import threading
         out = []
-        CH = 200
-        for i in range(0, len(reqs), CH):
-            chunk = reqs[i:i + CH]
-            self.p.stdin.write("".join(json.dumps(r, separators=(",", ":")) + "\n" for r in chunk))
-            self.p.stdin.flush()
-            for _ in chunk:
-                line = self.p.stdout.readline()
-                if not line:
-                    raise Infra("whmodel died (stack overflow or crash) on request near %r" % (json.dumps(chunk[0])[:300],))
-                out.append(json.loads(line))
+        lines = [json.dumps(r, separators=(",", ":")) + "\n" for r in reqs]
+        err = []
+
+        def feed():
+            try:
+                for i in range(0, len(lines), 50):
+                    self.p.stdin.write("".join(lines[i:i + 50]))
+                    self.p.stdin.flush()
+            except Exception as e:   # model died: the reader notices
+                err.append(e)
+        th = threading.Thread(target=feed, daemon=True)
+        th.start()
+        for k in range(len(reqs)):
+            line = self.p.stdout.readline()
+            if not line:
+                raise Infra("whmodel died (stack overflow or crash) on request near %r" % (lines[k][:300],))
+            out.append(json.loads(line))
+        th.join()
         self.calls += len(reqs)
         return out
 
